@@ -18,6 +18,11 @@ proved over the translation of server/protocol.py.  This translator regenerates,
                          argument of the chain constructor) to the `if` that contains the `loop.create_server` calls:
                            gen_setup  = that slice up to the assignment of the chain:  (L, chain, effects)
                            gen_start  = the whole slice:                              (L, chain, effects)
+                           gen_boot   = gen_start extended upwards over the selection of the TLS contexts: from the first
+                                        top-level statement that binds one of the Optional locals the create_server calls
+                                        read (`ssl_context = None`, `pyopenssl_ctx = None`) - the four branches that call
+                                        a context builder.  A builder call `x = builder(..)` is the effect `EffBuild name`
+                                        and the value of an ORACLE argument `oracle_<name>` that returns a context.
                          preceded by the single-assignment pure locals they read (`request_client_cert`, `use_pyopenssl`).
                          gen_middlewares / gen_chain / gen_setup_effects are the projections of gen_setup.
                          Effects (WiringGlue.effect), in program order: `x.m()` on a middleware object (a plain `def`
@@ -66,6 +71,13 @@ TRUSTED TABLES (everything else is read from the AST)
   DICT_VIEWS   the keys of a path_entry and the WiringGlue field each denotes (values have the types
                CertificateAuthPathRule declares).
   ENV_CALLS    asyncio.get_running_loop() -> RunningLoop; LISTEN: create_server(protocol_factory, host, port, ssl=).
+  ORACLES      the four TLS context builders and the abstract type of what they return.  Checked on their defs: plain
+               functions, every `return` returns a call result or a local only ever assigned call results, control cannot
+               fall off the end - so a call that returns, returns an object (never None).  Arguments: those the call site
+               supplies, typed by the def's annotations.  What the builders configure is tlsconf.py's table (C20).
+  TRUTHY/STR_OF  `Path | str` (certfile, keyfile) -> WiringGlue.pathlike: a Path is true, a str iff non-empty; str(None)
+               is "None"; a first binding `x = None` without annotation gets Optional of the type of the builder results
+               assigned to x later.
   Not modelled: exceptions of the statements outside the slices (then no server is started), the state inside the
   middleware objects (an object is its class and constructor arguments), every keyword of the start_server call that does
   not feed a wiring parameter (must be a safe expression; dropped)."""
@@ -77,16 +89,24 @@ import py2coq_mw
 from py2coq_mw import Ctx, annot_type, ctype, record_text, class_node, is_opt
 
 # ------------------------------------------------------------------ trusted tables
+SERVER_FILE, SERVER_FUNC = "server/server.py", "start_server"
 MW_FILE, CHAIN_CLASS = "server/middleware.py", "MiddlewareChain"
 CONFIG_FILE, CONFIG_CLASS = "server/config.py", "ServerConfig"
 CONFIG_METHODS = ["get_rate_limit_config", "get_access_control_config", "get_certificate_auth_config"]
-SERVER_FILE, SERVER_FUNC = "server/server.py", "start_server"
 MAIN_FILE = "__main__.py"
 MW_SIGNATURE = ["self", "request_url", "client_ip", "client_cert_fingerprint"]
 PROTO = {"GeminiServerProtocol": ("server/protocol.py", "PGemini", ["request_handler", "middleware", "upload_handler"], ["H", "C", "U"]),
          "TLSServerProtocol": ("server/tls_protocol.py", "PTls", ["inner_protocol_factory", "ssl_context"], [None, "X"])}
 APP_PROTO = "GeminiServerProtocol"
-ANNOT = {"dict[str, Any]": "path_entry", "set[str]": ("list", "str"), "list[Middleware]": ("list", "mwkind")}
+ANNOT = {"dict[str, Any]": "path_entry", "set[str]": ("list", "str"), "list[Middleware]": ("list", "mwkind"),
+         "Path | str": "pathlike", "ssl.SSLContext": "T_sslctx"}
+# the TLS context builders: oracle arguments of gen_boot that RETURN a context (checked: every `return` of the def returns
+# a constructed object); what they set on it is tlsconf.py's business.  name -> (file, abstract result type)
+ORACLES = {"create_server_context": ("security/tls.py", "T_sslctx"), "_create_self_signed_context": (SERVER_FILE, "T_sslctx"),
+           "create_pyopenssl_server_context": ("security/pyopenssl_tls.py", "T_pyctx"),
+           "_create_self_signed_pyopenssl_context": (SERVER_FILE, "T_pyctx")}
+TRUTHY = {"pathlike": "pathlike_truthy"}      # WiringGlue: a Path is always true, a str iff non-empty
+STR_OF = {"pathlike": "pathlike_str"}         # str(x)
 DICT_VIEWS = {"path_entry": {"prefix": ("pe_prefix", "str"), "require_cert": ("pe_require_cert", "bool"),
                              "allowed_fingerprints": ("pe_allowed_fingerprints", ("list", "str"))}}
 ENV_CALLS = {"asyncio.get_running_loop": ("RunningLoop", "evloop")}
@@ -192,6 +212,7 @@ class W(Fn):
         self.mw_class_of = {}       # local name -> middleware class of the object it was last bound to
         self.last_proto = None
         self.used = set()           # names the translated text reads
+        self.oracles = {}           # builder name -> (argument types, result type)
 
     def fresh(self, base):
         self.tmp += 1
@@ -328,6 +349,14 @@ class W(Fn):
                 try: c = " && ".join([self.cond(x) for x in gen.ifs] + [self.cond(ge.elt)])
                 finally: del self.env[var]
                 return "(existsb (fun %s => %s) %s)" % (var, c, it), "bool"
+            if f.id == "str" and len(e.args) == 1 and not e.keywords:
+                x, t = self.tx(e.args[0])
+                if t == "str": return x, "str"
+                if t in STR_OF: return "(%s %s)" % (STR_OF[t], x), "str"
+                if is_opt(t) and t[1] in STR_OF:      # str(None) is the text "None"
+                    return "(match %s with Some v__ => %s v__ | None => %s end)" % (x, STR_OF[t[1]], coq_str("None")), "str"
+                bad(e, "str() of a value of type %s" % (t,))
+            if f.id in ORACLES: bad(e, "call of the context builder %s outside `x = %s(..)`" % (f.id, f.id))
             if f.id == "set" and len(e.args) == 1 and not e.keywords:
                 x, t = self.tx(e.args[0])
                 if t != ("list", "str"): bad(e, "set() of a value of type %s" % (t,))
@@ -419,6 +448,8 @@ class W(Fn):
         if t == "str" or (isinstance(t, tuple) and t[0] == "list"): return "(match %s with [] => false | _ => true end)" % x
         if is_opt(t) and isinstance(t[1], tuple) and t[1][0] == "list": return "(match %s with Some (_ :: _) => true | _ => false end)" % x
         if is_opt(t) and self.always_true(t[1]): return "(match %s with Some _ => true | None => false end)" % x
+        if t in TRUTHY: return "(%s %s)" % (TRUTHY[t], x)
+        if is_opt(t) and t[1] in TRUTHY: return "(match %s with Some v__ => %s v__ | None => false end)" % (x, TRUTHY[t[1]])
         if self.always_true(t): return "true"
         bad(e, "truthiness of type %s" % (t,))
 
@@ -505,9 +536,13 @@ class W(Fn):
         elif declared is not None:
             term = self.fit(node, term, ty, declared); self.env[name] = declared
         else:
-            if ty == "none": bad(node, "first binding of %s is None without an annotation" % name)
-            self.env[name] = ty
+            if ty == "none":
+                nt = self.spec.get("none_types", {}).get(name)
+                if nt is None: bad(node, "first binding of %s is None without an annotation" % name)
+                self.env[name] = nt
+            else: self.env[name] = ty
         self.narrow.pop(name, None)
+        if ty == "none" and is_opt(self.env[name]): term = "(@None %s)" % ctype(self.env[name][1])     # typed, also when never read
         return term
 
     def block(self, stmts, k, kc=None):
@@ -632,6 +667,11 @@ class W(Fn):
                 term = self.bind(s, name, r, info["ret"], declared)
                 return "(match %s %s with Ok %s => let %s := %s in %s | Err k__ m__ => Err k__ m__ | OutOfModel => OutOfModel end)" % (
                     info["name"], self.expr(val.func.value), r, name, term, self.block(rest, k, kc))
+        if isinstance(val, ast.Call) and isinstance(val.func, ast.Name) and val.func.id in ORACLES and val.func.id not in self.env and not awaited:
+            if kc is not None: bad(s, "effect inside a loop")
+            term, ty = self.oracle_call(val)
+            term = self.bind(s, name, term, ty, declared)
+            return "(let effects__ := effects__ ++ [EffBuild %s] in let %s := %s in %s)" % (cstring(val.func.id), name, term, self.block(rest, k, kc))
         if awaited: bad(s, "await of an unknown call")
         if isinstance(val, ast.Name) and isinstance(self.typeof(val), tuple) and self.typeof(val)[0] == "list": bad(s, "alias of a list")
         term, ty = self.tx(val)
@@ -640,6 +680,23 @@ class W(Fn):
         elif name in self.mw_class_of: del self.mw_class_of[name]
         term = self.bind(s, name, term, ty, declared)
         return "(let %s := %s in %s)" % (name, term, self.block(rest, k, kc))
+
+    def oracle_call(self, c):
+        name = c.func.id
+        sig = self.g.oracle_sigs[name]                      # [(parameter, type or None, has default)]
+        args = self.bind_args(c, [p for p, _, _ in sig], name)
+        if args is None: bad(c, "unknown keyword of %s" % name)
+        terms, types = [], []
+        for p, t, has_default in sig:
+            if p in args:
+                if t is None: bad(c, "argument %s of %s has no translatable annotation" % (p, name))
+                terms.append(self.coerce(args[p], t)); types.append((p, t))
+            elif not has_default: bad(c, "missing argument %s of %s" % (p, name))
+        if not terms: terms, types = ["tt"], [("_", "unit")]
+        rt = ORACLES[name][1]
+        if name in self.oracles and self.oracles[name] != (types, rt): bad(c, "%s called with two argument shapes" % name)
+        self.oracles[name] = (types, rt)
+        return "(oracle_%s %s)" % (name.lstrip("_"), " ".join(terms)), rt
 
     def listen(self, c):
         pos, kws = LISTEN[2], LISTEN[3]
@@ -770,6 +827,32 @@ def check_protocol_classes(g):
             if not (isinstance(d, ast.Constant) and d.value is None): raise Untranslatable("%s.__init__: default of %s is not None" % (cls, n))
         g.proto_optional[cls] = set(defaults)
 
+def check_oracles(g):
+    """the context builders: parameters (typed by their annotations) and the check that they return a constructed object"""
+    g.oracle_sigs = {}
+    for name, (rel, _) in ORACLES.items():
+        fn = find_function(g.tree(rel), None, name)
+        a = fn.args
+        if not isinstance(fn, ast.FunctionDef) or a.vararg or a.kwarg or a.kwonlyargs or a.posonlyargs or fn.decorator_list:
+            raise Untranslatable("%s: not a plain function" % name)
+        nd = len(a.args) - len(a.defaults)
+        g.oracle_sigs[name] = [(x.arg, annot_type(x.annotation, ASPEC, g.ctx) if x.annotation is not None else None, i >= nd) for i, x in enumerate(a.args)]
+        own = [n for n in ast.walk(fn)]
+        rets = [n for n in own if isinstance(n, ast.Return)]
+        if not rets or any(isinstance(n, (ast.Yield, ast.YieldFrom)) or (isinstance(n, (ast.FunctionDef, ast.AsyncFunctionDef)) and n is not fn) for n in own):
+            raise Untranslatable("%s: no return / nested function" % name)
+        for r in rets:
+            v = r.value
+            if isinstance(v, ast.Call): continue
+            if isinstance(v, ast.Name):
+                asg = [n for n in own if isinstance(n, (ast.Assign, ast.AnnAssign)) and v.id in stored_names(n)]
+                others = [n for n in own if isinstance(n, ast.Name) and n.id == v.id and isinstance(n.ctx, (ast.Store, ast.Del))]
+                if asg and len(others) == len(asg) and all(isinstance(n.value, ast.Call) and len(stored_names(n)) == 1 for n in asg): continue
+            raise Untranslatable("%s: a return that does not return a constructed object (line %d)" % (name, r.lineno))
+        last = fn.body[-1]
+        while isinstance(last, (ast.With, ast.Try)): last = last.body[-1]
+        if not isinstance(last, (ast.Return, ast.Raise)): raise Untranslatable("%s can fall off its end (returning None)" % name)
+
 # ------------------------------------------------------------------ server/config.py
 def attr_reads(nodes, base):
     return {n.attr for st in nodes for n in ast.walk(st) if isinstance(n, ast.Attribute) and isinstance(n.value, ast.Name) and n.value.id == base}
@@ -878,10 +961,28 @@ def slice_inputs(g, A, stmts):
 
 GENERIC = {"H": "H_handler", "C": "C_chain", "U": "U_upload", "X": "X_tlsctx", "S": "S_sslctx", "P": "P_proto"}
 
+def abstract_types(types):
+    out = []
+    def go(t):
+        if isinstance(t, str):
+            if (t.startswith("T_") or t.startswith("A_")) and t not in out: out.append(t)
+        elif isinstance(t, tuple):
+            for x in t[1:]: go(x)
+    for t in types: go(t)
+    return out
+
 def translate_slice(g, A, upto, name):
+    """A["i0"]: index of the first statement of the slice"""
     stmts = copy.deepcopy(A["body"][A["i0"]:upto + 1])
     derived, inputs_p, inputs_l = slice_inputs(g, A, stmts)
-    w = W(dict(name=name, allow_chain=True), A["fn"], g)
+    none_types = {}
+    for st in stmts:
+        for n in ast.walk(st):
+            if isinstance(n, (ast.Assign, ast.AnnAssign)) and isinstance(n.value, ast.Call) and isinstance(n.value.func, ast.Name) and n.value.func.id in ORACLES:
+                for x in stored_names(n):
+                    nt = ("opt", ORACLES[n.value.func.id][1])
+                    if none_types.setdefault(x, nt) != nt: bad(n, "%s is assigned contexts of two kinds" % x)
+    w = W(dict(name=name, allow_chain=True, none_types=none_types), A["fn"], g)
     ptypes = []
     for p in inputs_p:
         t = annot_type(A["annots"][p], ASPEC, g.ctx)
@@ -900,16 +1001,13 @@ def translate_slice(g, A, upto, name):
         if "ROLE_%s__" % r in body: body = body.replace("ROLE_%s__" % r, resolved(r))
     P = "(proto %s %s %s %s)" % tuple(resolved(r) for r in "HCUX") if listened else resolved("P")
     efft = "(effect mwkind %s %s)" % (P, resolved("S"))
-    tps = []
-    for n, t in inputs_l:
-        tps.append(t[1] if is_opt(t) else t)
-    for _, _, rt in w.attr_params: tps.append(rt)
-    tps += generics
-    params = [(n, ("fun", bt, rt)) for n, bt, rt in w.attr_params] + ptypes + inputs_l
+    oracle_params = [("oracle_" + n.lstrip("_"), ("fun",) + tuple(t for _, t in w.oracles[n][0]) + (w.oracles[n][1],)) for n in ORACLES if n in w.oracles]
+    params = [(n, ("fun", bt, rt)) for n, bt, rt in w.attr_params] + oracle_params + ptypes + inputs_l
+    tps = abstract_types([t for _, t in params] + list(w.roles.values())) + generics
     ret = "list mwkind * option py_%s * list %s" % (CHAIN_CLASS, efft)
     text = "Definition %s%s %s\n  : %s :=\n  let effects__ := (@nil %s) in\n  %s.\n" % (
         name, (" {" + " ".join(tps) + " : Type}") if tps else "", " ".join("(%s : %s)" % (n, ctype(t)) for n, t in params), ret, efft, body)
-    return w, text, dict(tparams=tps, generics=generics, params=params, ptypes=ptypes, derived=derived, inputs_l=inputs_l, stmts=stmts)
+    return w, text, dict(tparams=tps, generics=generics, params=params, ptypes=ptypes, derived=derived, inputs_l=inputs_l, stmts=stmts, oracles=oracle_params)
 
 def parents(root):
     out = {}
@@ -1065,6 +1163,7 @@ def cstring(s):
 def main(out_path):
     g = G()
     check_protocol_classes(g)
+    check_oracles(g)
     chunks = [HEADER, gen_middleware_module(g), "\n"]
     A = analyse_start(g)
     cfg_params = [p for p in A["params"] if A["annots"][p] is not None and ast.unparse(A["annots"][p]) == CONFIG_CLASS]
@@ -1076,6 +1175,20 @@ def main(out_path):
     g.ctx.classes[CONFIG_CLASS] = dict(fields=[], tparams=[])
     derived, _, _ = slice_inputs(g, A, probe_stmts)
     for p in cfg_params: reads |= attr_reads(derived, p)
+    # the slice extended upwards over the selection of the TLS contexts: from the first top-level statement that binds one of
+    # the Optional locals the create_server calls read (`ssl_context`, `pyopenssl_ctx`: None before the branches)
+    _, _, loc0 = slice_inputs(g, A, probe_stmts)
+    ctx_names = [n for n, ty in loc0 if is_opt(ty)]
+    for st in all_stmts[:A["i0"]]:           # ... and every local a context builder's result is assigned to
+        for n in ast.walk(st):
+            if isinstance(n, (ast.Assign, ast.AnnAssign)) and isinstance(n.value, ast.Call) and isinstance(n.value.func, ast.Name) and n.value.func.id in ORACLES:
+                ctx_names += [x for x in stored_names(n) if x not in ctx_names]
+    tops = [i for i, s in enumerate(all_stmts[:A["i0"]]) if stored_names(s) & set(ctx_names)]
+    if not ctx_names or not tops: raise Untranslatable("no selection of TLS contexts found before the middleware block")
+    B = dict(A, i0=min(tops))
+    boot_stmts = copy.deepcopy(all_stmts[B["i0"]:A["li"] + 1])
+    bderived, _, _ = slice_inputs(g, B, boot_stmts)
+    for p in cfg_params: reads |= attr_reads(boot_stmts, p) | attr_reads(bderived, p)
     _, wnames, _ = slice_inputs(g, A, probe_stmts)
     S = serve_slice(g, A, wnames, cfg_params)
     for c in S["cfg_inputs"]: reads |= attr_reads(S["sl"], c)
@@ -1094,6 +1207,12 @@ def main(out_path):
         (" {" + " ".join(i1["tparams"]) + " : Type}") if i1["tparams"] else "", bind1,
         ("@gen_setup " + " ".join(i1["tparams"])) if i1["tparams"] else "gen_setup", names1))
     chunks += ["(* %s, lines %d-%d: the same statements continued to the create_server calls *)\n" % (SERVER_FILE, A["body"][A["i0"]].lineno, A["body"][A["li"]].end_lineno), t2, "\n"]
+    w4, t4, i4 = translate_slice(g, B, A["li"], "gen_boot")
+    frame_checks(g, B, w4, i4)
+    if [p for p, _ in i4["ptypes"]] != [p for p, _ in i2["ptypes"]]: raise Untranslatable("the extended slice reads other parameters of %s" % SERVER_FUNC)
+    if sorted(w4.rows) != sorted(w2.rows) or any(is_opt(ty) for _, ty in i4["inputs_l"]): raise Untranslatable("the extended slice still reads an Optional local")
+    chunks += ["(* %s, lines %d-%d: the selection of the TLS contexts (builders: oracle arguments returning a context), then the same *)\n" % (
+        SERVER_FILE, B["body"][B["i0"]].lineno, A["body"][A["li"]].end_lineno), t4, "\n"]
     t3, sl, _ = translate_serve(g, A, i2["ptypes"], S)
     chunks += ["(* %s, lines %d-%d: the arguments start_server is called with (its wiring parameters: %s) *)\n" % (
         MAIN_FILE, sl[0].lineno, sl[-1].end_lineno, ", ".join(p for p, _ in i2["ptypes"])), t3, "\n"]
@@ -1105,7 +1224,7 @@ def main(out_path):
     chunks.append("Definition chain_var : string := %s.\nDefinition list_var : string := %s.\n" % (cstring(A["CH"]), cstring(A["L"])))
     chunks.append("Definition wiring_params : list string := [%s].\n" % "; ".join(cstring(p) for p, _ in i2["ptypes"]))
     open(out_path, "w").write("".join(chunks))
-    print("py2coq_wiring: %d records, %d middleware classes, %d config methods, 2 slices of %s, 1 of %s, %d factories" % (
+    print("py2coq_wiring: %d records, %d middleware classes, %d config methods, 3 slices of %s (setup, start, boot), 1 of %s, %d factories" % (
         len(g.records) + 2, len(g.mw), len(CONFIG_METHODS), SERVER_FUNC, MAIN_FILE, len(rows)))
 
 if __name__ == "__main__":
